@@ -144,7 +144,13 @@ fn rand_obj(rng: &mut ChaCha8Rng, n: usize) -> Vec<Q> {
 }
 
 pub fn check_standard_form(spec: &LmSpec, rng: &mut ChaCha8Rng, out: &mut UnitOut) -> Result<(), (String, String, Value)> {
-    let lm = spec.to_rooc();
+    // half of the models carry their domain map in another order than their column list
+    let lm = if rng.gen_bool(0.5) {
+        out.tag("domain-order-differs-from-column-order");
+        spec.to_rooc_domain_shuffled(rng)
+    } else {
+        spec.to_rooc()
+    };
     let xl = XLin::from_rooc(&lm).map_err(|_| ("skip".to_string(), String::new(), Value::Null))?;
     let std = match std::panic::catch_unwind(std::panic::AssertUnwindSafe(|| lm.clone().into_standard_form())) {
         Ok(Ok(s)) => s,
